@@ -202,24 +202,11 @@ func ruleRetry(x *Exec, fr *Frame, st *State, ins ssa.Instruction, sig *types.Si
 		return as
 	}
 	// write set of one attempt
-	x.dry++
-	dst := st.clone()
-	dst.writes = map[string]bool{}
-	x.callFunc(fr, dst, ins, op.Clo.Fn, opArgs(dst), op.Clo, site+".retry")
-	writes := dst.writes
-	x.dry--
-	pre := st.alloc
-	st.alloc = Fresh("alloc_retry", "Int")
-	x.assume(st, Ge(st.alloc, pre))
-	for _, k := range sortedKeys(writes) {
-		switch {
-		case strings.HasPrefix(k, "ghost:"):
-			g := strings.TrimPrefix(k, "ghost:")
-			st.ghost[g] = Fresh("G_"+g+"_retry", ghostSorts[g])
-		default:
-			st.heap[k] = freshHeap(st, k, "retry")
-		}
-	}
+	wset := x.discoverWrites(st, func(dst *State) {
+		x.callFunc(fr, dst, ins, op.Clo.Fn, opArgs(dst), op.Clo, site+".retry")
+	})
+	writes := wset.keys
+	x.havocWriteSet(fr, st, wset, "retry")
 	var js []*Term
 	for _, c := range invs {
 		js = append(js, evalInv(st, c))
